@@ -10,6 +10,8 @@ import (
 	"encoding/json"
 	"flag"
 	"fmt"
+	"go/ast"
+	"go/types"
 	"os"
 	"path/filepath"
 	"runtime/debug"
@@ -41,7 +43,32 @@ func main() {
 	dump := flag.String("dump", "", "debug: dump the SSA of the named function")
 	noEvidence := flag.Bool("no-evidence", false, "do not write evidence files (used for scratch copies and overlays)")
 	mutants := flag.String("mutants", "", "run the sensitivity corpus from this directory for the property (thorough tier does this automatically)")
+	dumpFuncs := flag.Bool("dump-funcs", false, "maintenance: print the reference table of named functions (name, signature) of the tree")
 	flag.Parse()
+
+	if *dumpFuncs {
+		w, err := loadWorldRaw(*repo, nil, nil)
+		if err != nil {
+			fmt.Fprintln(os.Stderr, err)
+			os.Exit(2)
+		}
+		var lines []string
+		for _, p := range w.Pkgs {
+			for _, file := range p.Syntax {
+				for _, d := range file.Decls {
+					if fd, ok := d.(*ast.FuncDecl); ok {
+						if obj, ok := p.TypesInfo.Defs[fd.Name].(*types.Func); ok {
+							lines = append(lines, funcShortName(obj)+"\t"+sigKey(obj.Type().(*types.Signature)))
+						}
+					}
+				}
+			}
+		}
+		sort.Strings(lines)
+		fmt.Println("# reference table: every named function of the library packages at the pinned commit (name<TAB>signature without parameter names)")
+		fmt.Println(strings.Join(lines, "\n"))
+		return
+	}
 
 	if *dump != "" {
 		w, err := LoadWorld(*repo, nil, nil)
@@ -153,6 +180,9 @@ func main() {
 		rep := runProp(w, id)
 		rep.finish(known)
 		extra := map[string]interface{}{"load_s": loadTime}
+		if len(w.Notes) > 0 {
+			extra["anchors_located_by_role"] = w.Notes
+		}
 		if *tier == "thorough" || *mutants != "" {
 			dir := *mutants
 			if dir == "" {
@@ -169,6 +199,9 @@ func main() {
 			id, total, okN, bad, und, kn, len(rep.Rules), w.NFuncs, w.NInstrs)
 		for _, ri := range rep.Rules {
 			fmt.Printf("   %-7s %3d instance(s) (floor %d)  %s\n", ri.ID, ri.Count, ri.Floor, ri.Text)
+		}
+		for _, n := range w.Notes {
+			fmt.Printf("   note: %s\n", n)
 		}
 		if os.Getenv("GOCHK_VERBOSE") != "" {
 			for _, o := range rep.Obls {
